@@ -74,18 +74,18 @@ def derives(repo: Repo, ci: ClassInfo, base_name: str) -> bool:
 
 def check(repo: Repo, R) -> None:
     noret = noreturn_set(repo)
-    live_passes(repo, R)
-    dispatch_completeness(repo, R, noret)
-    guard_inventory(repo, R, noret)
-    c03.slice_inner(repo, R, "C02")
-    c01.array_partition(repo, shared_retag(R, lambda r: "C02.4-guard-inventory", None), "C01.3-array-partition")
+    R.run(live_passes, repo, R)
+    R.run(dispatch_completeness, repo, R, noret)
+    R.run(guard_inventory, repo, R, noret)
+    R.run(c03.slice_inner, repo, R, "C02")
+    R.run(c01.array_partition, repo, shared_retag(R, lambda r: "C02.4-guard-inventory", None), "C01.3-array-partition")
     from . import c08
-    c08.check(repo, shared_retag(R, lambda r: "C02.7-failed-visit-never-revisited" if r.startswith("C08.3") else None,
+    R.run(c08.check, repo, shared_retag(R, lambda r: "C02.7-failed-visit-never-revisited" if r.startswith("C08.3") else None,
                                  "after a checking or rewriting pass failed on an ill-formed module, a later call re-visits the half-rewritten module (the fault has been popped away) and returns a package for it"))
     from . import c18 as _c18
-    _c18.check(repo, shared_retag(R, lambda r: "C02.8-displaced-attribute-disowned" if r.startswith("C18.1") else None,
+    R.run(_c18.check, repo, shared_retag(R, lambda r: "C02.8-displaced-attribute-disowned" if r.startswith("C18.1") else None,
                                   "an object displaced by re-using its name keeps its owner and its place in a per-kind container: the ownership check accepts it and the package declares two objects of one name"))
-    dead_guards(repo, R, "C02.6-no-dead-guards", [("_elaborated", "Module", F_MODULE), ("_pre_flattening_io", "Module", F_MODULE)])
+    R.run(dead_guards, repo, R, "C02.6-no-dead-guards", [("_elaborated", "Module", F_MODULE), ("_pre_flattening_io", "Module", F_MODULE)])
     R.floor("C02.1-live-checking-passes", 2)
     R.floor("C02.3-dispatch-complete", 4)
     R.floor("C02.4-guard-inventory", 20)
@@ -300,6 +300,17 @@ def is_none_test(expr_text: str) -> Callable[[ast.AST], bool]:
     return p
 
 
+def export_slice_guards(repo: Repo, R, noret, rule: str):
+    """What the slice resolver leaves for the exporter to refuse: a slice not (yet) on a concrete signal, a step other than +1."""
+    def G(fi, key, pred, what, why):
+        g = has_guard(fi, pred, noret, "raise")
+        R.check(g is not None, rule, key_of(fi, key), fi.at(g) if g is not None else fi.site,
+                f"{what}: guard present and failing" if g is not None else f"{what}: no failing guard found", why=why)
+    fes = repo.func(F_EXPORT, "export_slice")
+    G(fes, "slice-parent-signal", lambda t: _norm(t) == f"not isinstance({fes.node.args.args[0].arg}.parent, Signal)", "slice whose parent is not a concrete signal", "a nested slice is exported against the wrong signal")
+    G(fes, "slice-unit-step", lambda t: au.cmp_norm(t) == au.cmp_norm(ast.parse(f"{fes.node.args.args[0].arg}.step != 1", mode="eval").body), "slice with non-unit step", "a strided or reversed slice is exported as a contiguous forward range")
+
+
 def guard_inventory(repo: Repo, R, noret):
     rule = "C02.4-guard-inventory"
 
@@ -445,15 +456,20 @@ def guard_inventory(repo: Repo, R, noret):
             why="a circular instantiation recurses without bound or is accepted")
     # --- naming
     fmm = repo.func(F_MARK, "MarkModules.elaborate_module")
-    G(fmm, "unnamed-module", lambda t: _norm(t) in ("not module.name", "module.name is None"), "unnamed module", "an anonymous module is exported with an empty name")
+    def unnamed(t):
+        # fails for every falsy name: None (never named) and "" alike
+        s_ = _norm(t)
+        if s_ == "not module.name":
+            return True
+        both = ("None" in s_ and ("''" in s_ or '""' in s_)) and "module.name" in s_ and " and " not in s_
+        return both
+    G(fmm, "unnamed-module", unnamed, "unnamed module (name None or empty)", "an anonymous module — `h.Module()` or `h.Module(name='')` — is exported with an empty name: `.SUBCKT ` without a name")
     fen = repo.func(F_EXPORT, "ProtoExporter.export_module_name")
     G(fen, "name-clash", lambda t: isinstance(t, ast.Compare) and isinstance(t.ops[0], ast.In) and _norm(t.comparators[0]) == "self.modules_by_name", "two modules with one qualified name", "two different modules are exported under one name")
     # --- exporter refuses leftovers
     fem = repo.func(F_EXPORT, "ProtoExporter.export_module")
     G(fem, "leftover-bundles", lambda t: _norm(t) == "module.bundles", "module that still has bundle instances", "un-flattened bundles are dropped from the package")
-    fes = repo.func(F_EXPORT, "export_slice")
-    G(fes, "slice-parent-signal", lambda t: _norm(t) == f"not isinstance({fes.node.args.args[0].arg}.parent, Signal)", "slice whose parent is not a concrete signal", "a nested slice is exported against the wrong signal")
-    G(fes, "slice-unit-step", lambda t: au.cmp_norm(t) == au.cmp_norm(ast.parse(f"{fes.node.args.args[0].arg}.step != 1", mode="eval").body), "slice with non-unit step", "a strided or reversed slice is exported as a contiguous forward range")
+    export_slice_guards(repo, R, noret, rule)
     fct = repo.func(F_EXPORT, "export_connection_target")
     # a connection that is none of Signal / Slice / Concat reaches a raise (whatever the shape of the dispatch)
     from . import shared
